@@ -5,22 +5,25 @@
    unless an Opus tail is flagged for preservation, for OggFLAC a VORBIS_COMMENT block header whose 24-bit length equals
    the payload).
    (a) packet level, unconditional: whatever packet _inject builds decodes to exactly the tags that were set.
-   (b) file level (`_partial`): ogg_load of the saved file returns them, under the explicit alignment hypothesis
-       ogg_aligned -- the comment packet found by mutagen's page search starts on a page boundary and is the second
-       packet of the stream the independent reader looks at.  (Not derived from ogg_wf: mutagen searches pages by
-       content / position, the reader goes by packets; the two agree on every file laid out as the codec mappings
-       prescribe, and the harness checks the conclusion on every step.)
-   OggFLAC: the block header has a 24-bit length; for a rendered comment of 2^24 bytes or more mutagen writes the
-   length modulo 2^24 (struct.pack(">I", n)[-3:]) -- hence the explicit bound zlen (vc_render t) <= MAXSZ. *)
+   (b) file level: ogg_load of the saved file returns them, for every file whose tagged stream is laid out as the codec
+       mappings prescribe (ogg_mapped, a hypothesis on the input file alone: the identification header page is the
+       first page of its stream, not continued, and carries that one packet; the next page of the stream starts the
+       comment header and is not continued; this stream is the one the independent reader looks at).  From it the
+       alignment of mutagen's page search with the reader (ogg_aligned) is DERIVED (Fam_ogg_mapped.mapped_aligned) -- this
+       became possible when /repo restricted the Vorbis / Theora page search to the stream of the identification header.
+       The version with ogg_aligned as a hypothesis is kept as C01_ogg_save_partial.
+   OggFLAC: a rendered comment of 2^24 bytes or more is refused (ogg.error) since the fix of /repo; the former bound
+   zlen (vc_render t) <= MAXSZ is now a consequence of the success of the call. *)
 From Coq Require Import ZArith List Bool Lia.
 Import ListNotations.
 Require Import Base.Py Base.ZList Gen.Gen_tags Model.Crc Model.Ogg Model.Fam_flac Model.Fam_ogg
-  Proofs.Fam_ogg_inject Proofs.Fam_ogg_thms Proofs.Fam_ogg_c01 Proofs.Fam_ogg_load Proofs.Fam_ogg_examples.
+  Proofs.Fam_ogg_inject Proofs.Fam_ogg_thms Proofs.Fam_ogg_c01 Proofs.Fam_ogg_load Proofs.Fam_ogg_mapped
+  Proofs.Fam_ogg_examples Proofs.Fam_ogg_examples2.
 Open Scope Z_scope.
 
 Theorem C01_ogg_packet : forall c t pad cb fsize old d, ogg_f_new_packet c t pad cb fsize old = Ok d ->
   (c = OOpus -> pad = [] \/ exists b r, pad = b :: r /\ ogg_f_odd b = true) ->
-  (c = OFlac -> (exists h r, old = h :: r /\ h mod 128 = 4) /\ zlen (vc_render t) <= MAXSZ) ->
+  (c = OFlac -> exists h r, old = h :: r /\ h mod 128 = 4) ->
   ogg_f_decode c d =
   Ok (t, match c with
          | OFlac => -1
@@ -37,7 +40,7 @@ Theorem C01_ogg_save_partial : forall f c t cb f' pages,
   exists olds news k pad,
     cut_ok c t pad cb pages olds news k /\
     (ogg_aligned c pages k ->
-     (c = OFlac -> (exists h r, cut_p0 k = h :: r /\ h mod 128 = 4) /\ zlen (vc_render t) <= MAXSZ) ->
+     (c = OFlac -> exists h r, cut_p0 k = h :: r /\ h mod 128 = 4) ->
      ogg_load f' c =
      Ok (t, match c with
             | OFlac => -1
@@ -48,20 +51,42 @@ Theorem C01_ogg_save_partial : forall f c t cb f' pages,
 Proof. exact save_load. Qed.
 Print Assumptions C01_ogg_save_partial.
 
-(* (c) without the alignment hypothesis the file-level statement is FALSE for the code as it is (genuine defect of
-   /repo, reported): OggVorbis._inject (and OggTheora._inject) take the first page whose first packet starts with
-   b"\x03vorbis" (b"\x81theora") in ANY logical stream, while load reads the comment of info.serial.  Witness: a
-   well-formed multiplexed file in which a page of stream 9 starts with b"\x03vorbis" in front of the comment page of
-   the Vorbis stream 5; save() succeeds, the file stays well-formed, but the tags read back are still the old ones and
-   the packet of the foreign stream has been overwritten (see also C02_ogg_wrong_stream_refuted). *)
-Theorem C01_ogg_unaligned_refuted : exists f t cb f' told,
-  ogg_wf f = true /\ vc_valid t = true /\ ogg_load f OVorbis = Ok (told, 3) /\
-  ogg_save f OVorbis t cb = Ok f' /\ ogg_wf f' = true /\ ogg_load f' OVorbis = Ok (told, 3) /\ told <> t.
+Theorem C01_ogg_save : forall f c t cb f' pages,
+  ogg_parse f = Ok pages -> ogg_f_streams_ok pages = true -> ogg_mapped c pages ->
+  ogg_save f c t cb = Ok f' ->
+  exists olds news k pad,
+    cut_ok c t pad cb pages olds news k /\
+    ((c = OFlac -> exists h r, cut_p0 k = h :: r /\ h mod 128 = 4) ->
+     ogg_load f' c =
+     Ok (t, match c with
+            | OFlac => -1
+            | _ => match c, pad with
+                   | OOpus, _ :: _ => -1
+                   | _, _ => Z.max 0 (_get_padding cb (zlen (cut_p0 k) - zlen (ogg_vdata c t)) (zlen f - zlen (cut_p0 k))) end
+            end)).
+Proof. exact save_load_mapped. Qed.
+Print Assumptions C01_ogg_save.
+
+(* the layout hypothesis gives the alignment, for every codec *)
+Theorem C01_ogg_mapped_aligned : forall c t pad cb pages olds news k, Forall Proofs.C15_page.page_wf pages ->
+  ogg_mapped c pages -> cut_ok c t pad cb pages olds news k ->
+  ogg_f_inject c t pad cb (Proofs.C15_file.render_all pages) = Ok (olds, news) -> ogg_aligned c pages k.
+Proof. exact mapped_aligned. Qed.
+Print Assumptions C01_ogg_mapped_aligned.
+
+(* regression (former C01_ogg_unaligned_refuted; fixed in /repo: oggvorbis.py / oggtheora.py _inject look for the comment
+   page in the stream of the identification header only): a well-formed multiplexed file in which a page of stream 9
+   starts with b"\x03vorbis" in front of the comment page of the Vorbis stream 5 -- the tags are saved where load reads
+   them, and the file satisfies the layout hypothesis *)
+Example C01_ogg_ex_foreign_marker_regression :
+  ogg_wf ex_bait = true /\ ogg_mapped OVorbis ex_bait_pages /\ ogg_load ex_bait OVorbis = Ok (ex_old, 3) /\
+  ogg_save ex_bait OVorbis ex_tags (Some (cb_const 0)) = Ok ex_bait_saved /\ ogg_wf ex_bait_saved = true /\
+  ogg_load ex_bait_saved OVorbis = Ok (ex_tags, 0).
 Proof.
-  exists ex_bait, ex_tags, (Some (cb_const 0)), ex_bait_saved, ex_old.
-  destruct ex_bait_wrong_stream as (A & B & C & D & E & F & _). repeat split; try assumption. discriminate.
+  destruct ex_bait_regression as (A & B & C & D & E & _). repeat split; try assumption. exact ex_bait_mapped.
 Qed.
-Print Assumptions C01_ogg_unaligned_refuted.
+Example C01_ogg_ex_mapped : ogg_mapped OVorbis ex_vorbis_pages.
+Proof. exact ex_vorbis_mapped. Qed.
 
 (* non-vacuity: a multiplexed Vorbis file, and an Opus file whose comment packet has a tail to be preserved *)
 Example C01_ogg_ex_vorbis :
